@@ -49,7 +49,7 @@ Python oracle (harness/oracles/cf_fscm.py) and the Lean definition of "probabili
 on every run.  Model encoding:
 `(model (order…) ((pmf as (num den)…)…) ((v (pa…) (lat…) ((key… value)…))…))`, base values `((v x x')…)`. -/
 
-def ratOf? : Sexp → Option Rat
+def cfRatOf? : Sexp → Option Rat
   | .list [n, d] => do pure ((Int.ofNat (← asNat? n) : Rat) / (Int.ofNat (← asNat? d) : Rat))
   | _ => none
 
@@ -71,7 +71,7 @@ def modelOf? : Sexp → Option Fscm.Model
   | .list [.atom "model", order, .list pmfs, .list mechs] => do
       let order ← asNats? order
       let pmfs ← pmfs.mapM fun p => match p with
-        | .list xs => xs.mapM ratOf?
+        | .list xs => xs.mapM cfRatOf?
         | _ => none
       let ms ← mechs.mapM mechOf?
       let find (v : Nat) : Option MechRow := ms.find? (fun m => m.v == v)
